@@ -225,7 +225,7 @@ Proof.
   induction rx as [|f r IH]; intros i now i' fr H; cbn [sim_ingress map nh_run] in *.
   - inversion H; subst; reflexivity.
   - cbn [nh_step].
-    destruct (nh_process_ethernet i now f) as [[i1 f1]| |]; simpl in *; try discriminate.
+    destruct (nh_process_rx i now f) as [[i1 f1]| |]; simpl in *; try discriminate.
     destruct (sim_ingress i1 r now) as [[i2 f2]| |] eqn:R; simpl in *; try discriminate.
     inversion H; subst. rewrite (IH _ _ _ _ R). simpl. unfold stamp. rewrite map_app. reflexivity.
 Qed.
